@@ -65,7 +65,20 @@ namespace cnl {
 
         [[nodiscard]] constexpr auto operator()(Lhs const& lhs, Rhs const& rhs) const
         {
-            return Operator()(static_cast<result_rep>(lhs), static_cast<result_rep>(rhs));
+            if constexpr (
+                    std::is_same_v<Operator, _impl::divide_op> || std::is_same_v<Operator, _impl::modulo_op>) {
+                // the result has the digits of the dividend but the divisor may be wider:
+                // divide in a representation that holds both operands
+                using operand_tag = decltype(_impl::add_op{}(
+                        std::declval<elastic_tag<LhsDigits, LhsNarrowest>>(),
+                        std::declval<elastic_tag<RhsDigits, RhsNarrowest>>()));
+                using operand_rep = typename operand_tag::rep;
+                using result = decltype(Operator()(std::declval<result_rep>(), std::declval<result_rep>()));
+                return static_cast<result>(
+                        Operator()(static_cast<operand_rep>(lhs), static_cast<operand_rep>(rhs)));
+            } else {
+                return Operator()(static_cast<result_rep>(lhs), static_cast<result_rep>(rhs));
+            }
         }
     };
 
